@@ -1,40 +1,9 @@
 //! `verif run <ID> <quick|thorough>` | `verif replay <file>` | internal sub-commands.
 
-use std::cell::RefCell;
-
-pub mod c08;
-pub mod c09;
-pub mod c13;
-pub mod c16;
-pub mod c17;
-pub mod dump;
-pub mod engine;
-pub mod faults;
-pub mod forest;
-pub mod gen;
-pub mod interp;
-pub mod numerics;
-pub mod oracle_search;
-pub mod props;
-pub mod queries;
-pub mod runner;
-pub mod sched;
-pub mod script;
-pub mod spec;
-pub mod values;
-
-thread_local! {
-    pub static CURRENT_PROPERTY: RefCell<String> = const { RefCell::new(String::new()) };
-}
-
-static CURRENT_PROPERTY_GLOBAL: std::sync::OnceLock<String> = std::sync::OnceLock::new();
-
-pub fn current_property() -> String {
-    CURRENT_PROPERTY_GLOBAL.get().cloned().unwrap_or_default()
-}
+use verif::{engine, props, runner};
 
 fn usage() -> ! {
-    eprintln!("usage: verif run <ID> <quick|thorough> | verif replay <file> [--strict]");
+    eprintln!("usage: verif run <ID> <quick|thorough> | verif replay <file>");
     std::process::exit(2)
 }
 
@@ -54,7 +23,7 @@ fn main() {
                 "thorough" => runner::Tier::Thorough,
                 _ => usage(),
             };
-            let _ = CURRENT_PROPERTY_GLOBAL.set(args[2].clone());
+            verif::set_current_property(&args[2]);
             props::run_property(&args[2], tier)
         }
         "replay" => {
